@@ -333,6 +333,28 @@ func leanStr(s string) string {
 	return b.String()
 }
 
+// leanBytes renders a Go string as a Lean `List UInt8` literal.
+func leanBytes(s string) string {
+	var b strings.Builder
+	b.WriteByte('[')
+	for i, c := range []byte(s) {
+		if i > 0 {
+			b.WriteString(", ")
+		}
+		fmt.Fprintf(&b, "0x%02x", c)
+	}
+	b.WriteByte(']')
+	return b.String()
+}
+
+func leanBytesList(ss []string) string {
+	parts := make([]string, len(ss))
+	for i, s := range ss {
+		parts[i] = leanBytes(s)
+	}
+	return "[" + strings.Join(parts, ", ") + "]"
+}
+
 func writeIfChanged(name, content string) {
 	p := filepath.Join(outDir, name)
 	old, err := os.ReadFile(p)
